@@ -808,3 +808,22 @@ def run(index, rep, tier):
                     rep.check(scoped, "R09.26", f_.qualname, "row count refused against a stale NTAX", fn_where(f_, n_.stmt), "%s: `%s` - the field is set afresh per characters block" % (f_.name, norm(n_.ast)[:60]),
                               "%s refuses a matrix on `%s`, but _parse_characters_data_block never gives `_file_specified_ntax` a value of its own: a CHARACTERS block as this library writes it declares NCHAR only, so the NTAX compared is the one of the most recent TAXA block - a data set with namespaces of 4 and 2 taxa, each with a matrix, is written and then refused on reading back ('2 taxa declared, 4 rows found')" % (f_.qualname, norm(n_.ast)[:70]))
         rep.ob("R09.26", cdb.qualname, "%d raising row-count comparisons against _file_specified_ntax; field %s per characters block" % (n26, "reset" if scoped else "NOT reset"), fn_where(cdb))
+
+    # ---- R09.27 the command word of a block loop is not overwritten with the document's data
+    with rep.section("R09.27"):
+        rep.rule("R09.27", "the command word of a block loop is not overwritten with the document's data: in the NEXUS block parsers the variable the loop dispatches on (compared with END / TITLE / DIMENSIONS / TAXLABELS ...) is assigned from the tokenizer only, never from the result of a statement parser such as _parse_title_statement() - a block titled `END` or `TAXLABELS` (the label of a taxon namespace, written as TITLE when a data set has several) would end the block, or be taken for the command, on reading back")
+        n27 = 0
+        for mname, mf in sorted(index.klass("dendropy.dataio.nexusreader.NexusReader").methods.items()):
+            if not (mname.startswith("_parse_") and mname.endswith("_block")):
+                continue
+            for loop in [l for l in walk_no_nested(mf.node) if isinstance(l, ast.While)]:
+                dispatch = {x.left.id for x in ast.walk(loop.test) if isinstance(x, ast.Compare) and isinstance(x.left, ast.Name) and any(isinstance(c, ast.Constant) and c.value in ("END", "ENDBLOCK") for c in x.comparators)}
+                if not dispatch:
+                    continue
+                n27 += 1
+                for st in ast.walk(loop):
+                    if isinstance(st, ast.Assign) and any(isinstance(t, ast.Name) and t.id in dispatch for t in st.targets) and isinstance(st.value, ast.Call) \
+                            and isinstance(st.value.func, ast.Attribute) and norm(st.value.func.value) == "self" and st.value.func.attr.startswith("_parse_"):
+                        rep.check(False, "R09.27", mf.qualname, "command word overwritten by a statement's result", fn_where(mf, st), "",
+                                  "NexusReader.%s assigns `%s` to the variable its loop dispatches on: the result is text from the document (a block title), and the tests that follow - and the loop's own END test - take it for a command. A data set with two namespaces, the first labelled `END`, is written with `TITLE END;` and read back with a namespace that lost every taxon without a sequence; labelled `TAXLABELS`, its `DIMENSIONS NTAX=3;` is read as three taxon labels" % (mname, norm_stmt(st)[:60]))
+        rep.floor("R09.27", "block loops dispatching on a command word", 2, n27)
